@@ -40,5 +40,8 @@ def run(P, R, L):
     K.src1_iterator_sources(P, R, L)
     R.clause("SRC-2", "Version::get consults level-0 files newest first and every deeper level in ascending order")
     K.src2_lookup_candidates(P, R, L)
+    K.bundle_readpath(P, R, L)
+    K.bundle_retention(P, R, L)
+    K.bundle_liveness(P, R, L)
     R.not_decided += ["that get and iteration agree for every history", "that the kept entries are the right ones for every snapshot set "
                       "(the guard shape is necessary, not sufficient)"]
